@@ -604,6 +604,71 @@ func topicGuards(c *Ctx) map[*types.Var]guardSpec {
 	return g
 }
 
+// topicMutableFields: every other field of Tree / node that some non-constructor function of package topic writes
+// (assignment, element assignment, ++/--, delete, append-assign): shared mutable state that needs the same lock
+// (a scratch map reused between queries, a cached result, a counter).
+func topicMutableFields(c *Ctx, have map[*types.Var]guardSpec) []*types.Var {
+	owner := map[*types.Var]bool{}
+	for _, tn := range []string{"Tree", "node"} {
+		if n := c.P.Named("topic", tn); n != nil {
+			if st, ok := n.Underlying().(*types.Struct); ok {
+				for i := 0; i < st.NumFields(); i++ {
+					owner[st.Field(i)] = true
+				}
+			}
+		}
+	}
+	seen := map[*types.Var]bool{}
+	var out []*types.Var
+	for _, fi := range c.P.Funcs {
+		if shortPkg(fi.Pkg.PkgPath) != "topic" || fi.Decl.Body == nil {
+			continue
+		}
+		h := &Interp{P: c.P, Info: fi.Pkg.TypesInfo}
+		mark := func(e ast.Expr) {
+			for {
+				switch x := ast.Unparen(e).(type) {
+				case *ast.IndexExpr:
+					e = x.X
+					continue
+				case *ast.StarExpr:
+					e = x.X
+					continue
+				case *ast.SelectorExpr:
+					if fv, ok := h.rawObjOf(x).(*types.Var); ok && fv.IsField() && owner[fv] {
+						if _, guarded := have[fv]; !guarded && !seen[fv] {
+							if _, isMu := fv.Type().Underlying().(*types.Struct); !isMu || !strings.Contains(fv.Type().String(), "sync.") {
+								seen[fv] = true
+								out = append(out, fv)
+							}
+						}
+					}
+				}
+				return
+			}
+		}
+		ast.Inspect(fi.Decl.Body, func(m ast.Node) bool {
+			switch x := m.(type) {
+			case *ast.CompositeLit:
+				return false // constructor-style initialisation
+			case *ast.AssignStmt:
+				for _, l := range x.Lhs {
+					mark(l)
+				}
+			case *ast.IncDecStmt:
+				mark(x.X)
+			case *ast.CallExpr:
+				if id, ok := x.Fun.(*ast.Ident); ok && id.Name == "delete" && len(x.Args) == 2 {
+					mark(x.Args[0])
+				}
+			}
+			return true
+		})
+	}
+	sort.Slice(out, func(i, j int) bool { return out[i].Name() < out[j].Name() })
+	return out
+}
+
 func propC05(c *Ctx) string {
 	// LOCK
 	r := c.Rule("C05/LOCK", "LOCK", "every access to Tree.root, node.children, node.values holds Tree.mutex (W for writes) on every path; unexported helpers inherit the intersection of their call sites", 25)
@@ -611,6 +676,9 @@ func propC05(c *Ctx) string {
 	if len(guards) != 3 {
 		r.Undecided("topic guards", 0, "fields root/children/values or Tree.mutex not found")
 	} else {
+		for _, f := range topicMutableFields(c, guards) {
+			guards[f] = guardSpec{mutex: guards[c.P.Field("topic", "Tree", "root")].mutex, reason: "mutable field of the tree written outside constructors"}
+		}
 		res := c.lockAnalysis("topic", guards, nil, 0)
 		n := c.judgeLocks(r, res, guards, nil)
 		_ = n
